@@ -728,6 +728,19 @@ Proof.
   apply local_finalize; assumption.
 Qed.
 
+(* the table-driven release dispatch (Gen.gen_release_case / Gen.gen_exit_table), kind by kind *)
+Lemma release_cases s i :
+  release s i = match k (get s i) with
+                | KStructPtr st => if is_gcp (get s st) then finalize_at s st else s
+                | KFromBuf _ _ => let s1 := release_view s i in set_obj s1 i (mark_released (get s1 i))
+                | KGcp _ _ => finalize_at s i
+                | _ => s
+                end.
+Proof.
+  unfold release, release_case, guard_holds, do_exit. destruct (k (get s i)); cbn; try reflexivity.
+  destruct (own_is_struct s i); reflexivity.
+Qed.
+
 Lemma step_inv s o : Inv s -> Inv (step s o).
 Proof.
   intros H. destruct o; cbn [step].
@@ -801,6 +814,7 @@ Proof.
     apply set_local; [exact H | exact L | apply local_cancel; exact H].
   - (* ORelease *)
     destruct (usable s o) eqn:U; [|exact H]. destruct (usable_spec s o U) as (L & A & R).
+    rewrite release_cases.
     destruct (k (get s o)) eqn:K; try exact H.
     + destruct (is_gcp (get s s0)) eqn:G; [|exact H]. apply finalize_at_inv; [exact H| |exact G].
       apply (i_refs s H o). unfold refs_of. rewrite A, K. left. reflexivity.
@@ -922,7 +936,7 @@ Proof. unfold collect. destruct (garbage s G); [apply next_fold | reflexivity]. 
 
 Lemma next_step_le s o : next s <= next (step s o).
 Proof.
-  destruct o; cbn [step]; rewrite ?no_leak, ?andb_false_r; change gen_newp_fail_decref with true; cbv iota;
+  destruct o; cbn [step]; rewrite ?release_cases, ?no_leak, ?andb_false_r; change gen_newp_fail_decref with true; cbv iota;
     repeat match goal with
            | |- context [if ?c then _ else _] => destruct c
            | |- context [match k ?x with _ => _ end] => destruct (k x)
@@ -936,7 +950,7 @@ Qed.
 
 Lemma step_mono s o i : i < next s -> mono (get s i) (get (step s o) i).
 Proof.
-  intros L. destruct o; cbn [step]; rewrite ?no_leak, ?andb_false_r; change gen_newp_fail_decref with true; cbv iota;
+  intros L. destruct o; cbn [step]; rewrite ?release_cases, ?no_leak, ?andb_false_r; change gen_newp_fail_decref with true; cbv iota;
     repeat match goal with
            | |- context [if ?c then _ else _] => destruct c
            | |- context [match k ?x with _ => _ end] => destruct (k x)
@@ -993,14 +1007,14 @@ Proof.
       rewrite !E. split; reflexivity. }
   destruct (usable_spec s i U) as (L & A & R).
   destruct (k (get s i)) as [| st | orig dtor | | src view | x | refs ex] eqn:K;
-    try (assert (E : step s (ORelease i) = s) by (cbn [step]; rewrite U, K; reflexivity);
+    try (assert (E : step s (ORelease i) = s) by (cbn [step]; rewrite U, release_cases, K; reflexivity);
          rewrite !E; split; reflexivity).
   - (* struct pointer *)
     destruct (is_gcp (get s st)) eqn:G.
-    2:{ assert (E : step s (ORelease i) = s) by (cbn [step]; rewrite U, K, G; reflexivity).
+    2:{ assert (E : step s (ORelease i) = s) by (cbn [step]; rewrite U, release_cases, K, G; reflexivity).
         rewrite !E; split; reflexivity. }
     assert (Ne : i <> st) by (intros ->; unfold is_gcp in G; rewrite K in G; discriminate).
-    assert (E : step s (ORelease i) = finalize_at s st) by (cbn [step]; rewrite U, K, G; reflexivity).
+    assert (E : step s (ORelease i) = finalize_at s st) by (cbn [step]; rewrite U, release_cases, K, G; reflexivity).
     rewrite E. set (s1 := finalize_at s st).
     assert (U1 : usable s1 i = true) by (unfold s1, finalize_at; rewrite usable_set by apply fin_facts; exact U).
     assert (K1 : k (get s1 i) = KStructPtr st).
@@ -1008,24 +1022,24 @@ Proof.
     assert (G1 : is_gcp (get s1 st) = true).
     { unfold s1, finalize_at. rewrite get_set, Nat.eqb_refl. unfold is_gcp, run_dtor in *.
       destruct (k (get s st)) as [| | ? [?|] | | | |]; try discriminate; reflexivity. }
-    assert (E1 : step s1 (ORelease i) = finalize_at s1 st) by (cbn [step]; rewrite U1, K1, G1; reflexivity).
+    assert (E1 : step s1 (ORelease i) = finalize_at s1 st) by (cbn [step]; rewrite U1, release_cases, K1, G1; reflexivity).
     rewrite E1. split; [reflexivity|]. intros j. unfold s1, finalize_at. rewrite !get_set.
     destruct (Nat.eqb_spec j st); [|reflexivity]. rewrite Nat.eqb_refl. apply run_dtor_twice.
   - (* ffi.gc wrapper *)
-    assert (E : step s (ORelease i) = finalize_at s i) by (cbn [step]; rewrite U, K; reflexivity).
+    assert (E : step s (ORelease i) = finalize_at s i) by (cbn [step]; rewrite U, release_cases, K; reflexivity).
     rewrite E. set (s1 := finalize_at s i).
     assert (U1 : usable s1 i = true) by (unfold s1, finalize_at; rewrite usable_set by apply fin_facts; exact U).
     assert (K1 : exists a b, k (get s1 i) = KGcp a b).
     { unfold s1, finalize_at. rewrite get_set, Nat.eqb_refl. unfold run_dtor. rewrite K.
       destruct dtor; cbn; eauto. }
     destruct K1 as (a & b & K1).
-    assert (E1 : step s1 (ORelease i) = finalize_at s1 i) by (cbn [step]; rewrite U1, K1; reflexivity).
+    assert (E1 : step s1 (ORelease i) = finalize_at s1 i) by (cbn [step]; rewrite U1, release_cases, K1; reflexivity).
     rewrite E1. split; [reflexivity|]. intros j. unfold s1, finalize_at. rewrite !get_set.
     destruct (Nat.eqb_spec j i); [|reflexivity]. rewrite Nat.eqb_refl. apply run_dtor_twice.
   - (* from_buffer *)
     set (s1 := release_view s i).
     assert (E : step s (ORelease i) = set_obj s1 i (mark_released (get s1 i)))
-      by (cbn [step]; rewrite U, K; reflexivity).
+      by (cbn [step]; rewrite U, release_cases, K; reflexivity).
     rewrite E. set (s2 := set_obj s1 i (mark_released (get s1 i))).
     assert (G1 : get s1 i = unview (get s i))
       by (unfold s1; rewrite (release_view_get s i i H), Nat.eqb_refl; reflexivity).
@@ -1039,7 +1053,7 @@ Proof.
       exact U. }
     assert (RV : release_view s2 i = s2) by (unfold release_view; rewrite K2; reflexivity).
     assert (E2 : step s2 (ORelease i) = set_obj s2 i (mark_released (get s2 i)))
-      by (cbn [step]; rewrite U2, K2, RV; reflexivity).
+      by (cbn [step]; rewrite U2, release_cases, K2, RV; reflexivity).
     rewrite E2. split; [reflexivity|]. intros j. unfold s2. rewrite !get_set.
     destruct (Nat.eqb_spec j i); [|reflexivity]. rewrite Nat.eqb_refl. reflexivity.
 Qed.
@@ -1109,7 +1123,7 @@ Theorem release_struct_ptr_frees ops p st :
   calls (get (step s (ORelease p)) st) = 1.
 Proof.
   intros s U K G Hh Hc.
-  assert (E : step s (ORelease p) = finalize_at s st) by (cbn [step]; rewrite U, K, G; reflexivity).
+  assert (E : step s (ORelease p) = finalize_at s st) by (cbn [step]; rewrite U, release_cases, K, G; reflexivity).
   assert (R : run (ops ++ [ORelease p]) = finalize_at s st).
   { rewrite run_app. cbn [fold_left]. exact E. }
   rewrite E, <- R. apply dtor_exactly_once; rewrite R; unfold finalize_at; rewrite get_set, Nat.eqb_refl.
